@@ -69,6 +69,8 @@ inductive DE where
 inductive ExOut where
   | has (b : Bool)
   | failed (e : DErr)
+  /-- pinned tree: the subquery failed and the evaluator answered `null` without telling anybody -/
+  | swallowed
   deriving Repr
 
 /-- how the `EXISTS` subqueries of the line answer (parameters, row) -/
@@ -182,6 +184,7 @@ def evalV (X : ExFn) (env row : DRow) : DE → DV
     match X i env row with
     | .has b => dbool b
     | .failed _ => dnull
+    | .swallowed => dnull
   | .single e =>
     match evalV X env row e with
     | .s v => .list [v]
@@ -249,6 +252,7 @@ def parkV (X : ExFn) (env row : DRow) : DE → Option DErr
     match X i env row with
     | .has _ => none
     | .failed e => some e
+    | .swallowed => none
 
 def deval (X : ExFn) (coll : String → Nat → Option DErr) (e : DE) (env row : DRow) : Except DErr DV :=
   match ensure coll env row e with
